@@ -139,7 +139,10 @@ fn index(buf: &[u8], bounds: &mut Bounds) -> io::Result<()> {
         let start = offset + (prev_buf_len - buf.len());
         let end = start + len;
 
-        *buf = &buf[len..];
+        // `len` is read from the buffer and is not guaranteed to be within it.
+        *buf = buf
+            .get(len..)
+            .ok_or_else(|| io::Error::from(io::ErrorKind::UnexpectedEof))?;
 
         Ok((start, end))
     }
@@ -158,7 +161,9 @@ fn index(buf: &[u8], bounds: &mut Bounds) -> io::Result<()> {
         let start = offset + (prev_buf_len - buf.len());
         let end = start + len;
 
-        *buf = &buf[len..];
+        *buf = buf
+            .get(len..)
+            .ok_or_else(|| io::Error::from(io::ErrorKind::UnexpectedEof))?;
 
         Ok(end)
     }
@@ -182,7 +187,12 @@ fn index(buf: &[u8], bounds: &mut Bounds) -> io::Result<()> {
     bounds.reference_bases_range = start..end;
     i = end;
 
-    for _ in 0..(allele_count - 1) {
+    // The allele count includes the reference bases.
+    let alternate_base_count = allele_count
+        .checked_sub(1)
+        .ok_or_else(|| io::Error::from(io::ErrorKind::InvalidData))?;
+
+    for _ in 0..alternate_base_count {
         let (_, end) = consume_string(&mut buf, i)?;
         i = end;
     }
